@@ -369,6 +369,9 @@ func parseAux(aux []byte) ([]sam.Aux, error) {
 				}
 				i += j + 1
 			case 'B':
+				if i+8 > len(aux) {
+					return nil, errors.New("bam: invalid array aux data: short field")
+				}
 				length := binary.LittleEndian.Uint32(aux[i+4 : i+8])
 				j = int(length)*jumps[aux[i+3]] + int(unsafe.Sizeof(length)) + 4
 				if j < 0 || i+j < 0 || i+j > len(aux) {
